@@ -226,4 +226,439 @@ example : weightedPredict (1 : Rat) 4 2 [0, 1, 2] [3, 5, 1] = 3 := by decide +ke
 example : (0 : Rat) ∈ [(0 : Rat), 1, 2] ∧ ∀ q ∈ [(0 : Rat), 1, 2].zip [(3 : Rat), 5, 1], q.1 = 0 → q.2 = 3 := by
   decide +kernel
 
+
+/-! ## Nearest neighbour: linear interpolator -/
+
+section linear
+variable {K : Type} [Field K] [DecidableEq K]
+
+/-- At a training input (which is its own nearest neighbour `p0`) the hyperplane interpolator
+returns the training output — for *any* normal the SVD may have produced, on both branches
+(`normal[-1] == 0`: value of the nearest neighbour; otherwise `(x·nx - pc) / -nz`). -/
+theorem C28_interp_at_train_linear (tvm tvr : K) (nx : List K) (nz : K) (p0 : List K) (y0 : K)
+    (htvr : tvr ≠ 0) :
+    linearPredict tvm tvr nx nz p0 y0 p0 = y0 := by
+  unfold linearPredict linPlane denorm normalize
+  by_cases h : nz = 0
+  · rw [if_pos h]; field_simp; ring
+  · rw [if_neg h]; field_simp; ring
+
+/-- With the contract of the null vector (orthogonal to the differences of consecutive
+neighbours) and a non-vertical plane, the interpolant passes through *all* `n+1` neighbours. -/
+theorem C28_linear_through_neighbours (tvm tvr : K) (nx : List K) (nz : K)
+    (P : List (List K)) (Y : List K) (p0 : List K) (y0 : K) (htvr : tvr ≠ 0) (hnz : nz ≠ 0)
+    (hc : planeContract nx nz (p0 :: P) ((y0 :: Y).map (normalize tvm tvr)) = true)
+    (hlen : ∀ p ∈ p0 :: P, p.length = nx.length) :
+    ∀ q ∈ (p0 :: P).zip (y0 :: Y), linearPredict tvm tvr nx nz p0 y0 q.1 = q.2 := by
+  intro q hq
+  have hq' : (q.1, normalize tvm tvr q.2) ∈ (p0 :: P).zip ((y0 :: Y).map (normalize tvm tvr)) := by
+    rw [List.zip_map_right]
+    exact List.mem_map.mpr ⟨q, hq, rfl⟩
+  have hch : dot q.1 nx + normalize tvm tvr q.2 * nz = dot p0 nx + normalize tvm tvr y0 * nz :=
+    plane_chain nx nz P (Y.map (normalize tvm tvr)) p0 (normalize tvm tvr y0)
+      hc hlen (q.1, normalize tvm tvr q.2) hq'
+  unfold linearPredict linPlane
+  rw [if_neg hnz]
+  have : dot q.1 nx - (dot p0 nx + normalize tvm tvr y0 * nz) = -(normalize tvm tvr q.2 * nz) := by
+    linear_combination hch
+  rw [this]
+  unfold denorm normalize
+  field_simp
+  ring
+
+/-- `LinearInterpolator.gradient` is the derivative of `__call__` for a fixed neighbour set:
+on the dual point `xn + ε u` (unit-box coordinates, `u_j = e_j / tpr_j`) the dual part of the
+prediction is `gradient · e`. -/
+theorem C28_linearize_is_derivative_linear (tvm tvr : K) (tpr nx : List K) (nz : K) (p0 : List K)
+    (y0 : K) (Xs : List (Dual K)) (e : List K)
+    (hseed : Xs.map Dual.du = List.zipWith (· / ·) e tpr) :
+    linearPredict (Dual.const tvm) (Dual.const tvr) (nx.map Dual.const) (Dual.const nz)
+        (p0.map Dual.const) (Dual.const y0) Xs
+      = ⟨linearPredict tvm tvr nx nz p0 y0 (Xs.map Dual.re),
+         dot (linearLinearize tvr tpr nx nz) e⟩ := by
+  have hlin : dot (linearLinearize tvr tpr nx nz) e
+      = tvr * dot (nx.map (fun a => if nz = 0 then 0 else -a / nz)) (Xs.map Dual.du) := by
+    unfold linearLinearize
+    rw [hseed, ← dot_zipWith_scale, List.zipWith_map_left]
+  rw [hlin]
+  unfold linearPredict linPlane
+  by_cases h : nz = 0
+  · have hD : Dual.const nz = (0 : Dual K) := (const_eq_zero_iff nz).mpr h
+    rw [if_pos h, if_pos hD]
+    have hz : dot (nx.map (fun a => if nz = 0 then (0 : K) else -a / nz)) (Xs.map Dual.du) = 0 := by
+      have : nx.map (fun a => if nz = 0 then (0 : K) else -a / nz) = List.replicate nx.length 0 := by
+        simp [h]
+      rw [this, dot_replicate_zero]
+    rw [hz]
+    apply Dual.ext' <;> simp [denorm, normalize]
+  · have hD : ¬ Dual.const nz = (0 : Dual K) := fun hh => h ((const_eq_zero_iff nz).mp hh)
+    rw [if_neg h, if_neg hD]
+    have hm : nx.map (fun a => if nz = 0 then (0 : K) else -a / nz) = nx.map (fun a => -a / nz) := by
+      simp [h]
+    rw [hm]
+    have hdm : dot (nx.map (fun a => -a / nz)) (Xs.map Dual.du)
+        = -(dot (Xs.map Dual.du) nx) / nz := by
+      have : nx.map (fun a => -a / nz) = (smul (-1) nx).map (fun g => g / nz) := by
+        simp [smul, List.map_map, Function.comp_def]
+      rw [this, dot_map_div, dot_smul_left, dot_comm]; ring
+    rw [hdm]
+    apply Dual.ext'
+    · simp only [denorm, normalize, Dual.add_re, Dual.mul_re, Dual.div_re, Dual.sub_re, Dual.neg_re,
+        Dual.const_re, dot_re, map_re_const]
+    · simp only [denorm, normalize, Dual.add_du, Dual.mul_du, Dual.div_du, Dual.sub_du, Dual.sub_re,
+        Dual.neg_re, Dual.neg_du, Dual.const_re, Dual.const_du, dot_const_du, dot_const_re,
+        Dual.add_re, Dual.mul_re, map_re_const, map_du_const, dot_replicate_zero]
+      field_simp
+      ring
+
+end linear
+
+-- non-vacuity: plane through (0,0)->1, (1,0)->3, (0,1)->2 in the unit box (normal (2,1,-1))
+example : planeContract [(2 : Rat), 1] (-1) [[0, 0], [1, 0], [0, 1]]
+    ([(1 : Rat), 3, 2].map (normalize 0 1)) = true := by decide +kernel
+example : linearPredict (0 : Rat) 1 [2, 1] (-1) [0, 0] 1 [1, 0] = 3 := by decide +kernel
+
+/-! ## Nearest neighbour: RBF interpolator -/
+
+section rbf
+variable {K : Type} [Field K]
+
+/-- The dense row that `_find_R` builds by scattering into a row of zeros, dotted with the weight
+vector, is the sum over the (distinct) neighbours — the form `_find_dR` differentiates. -/
+theorem C28_rbf_dense_eq_neighbour_sum (m : Nat) (e : RbfEntry) (idx : List Nat) (ds : List K)
+    (dN : K) (W : List K) (hW : W.length = m) (hlen : idx.length = ds.length)
+    (hnd : idx.Nodup) (hlt : ∀ i ∈ idx, i < m) :
+    dot (rbfDenseRow m e idx ds dN) W = rbfPredictN e ds dN (gather W idx) := by
+  unfold rbfDenseRow rbfPredictN
+  exact dot_scatter m idx _ W hW (by simpa [rbfRow] using hlen) hnd hlt
+
+/-- Training solves `Rt W = tv` (certificate: row `i` of that system); a query at training input
+`i` finds the neighbours of training point `i` (KD-tree contract), hence builds row `i` of `Rt`
+and returns the training output. -/
+theorem C28_interp_at_train_rbf (tvm tvr : K) (m : Nat) (e : RbfEntry) (idx : List Nat)
+    (ds : List K) (dN : K) (W : List K) (yi : K) (htvr : tvr ≠ 0)
+    (hsolve : dot (rbfDenseRow m e idx ds dN) W = normalize tvm tvr yi) :
+    rbfPredict tvm tvr m e idx ds dN W = yi := by
+  unfold rbfPredict
+  rw [hsolve]
+  unfold denorm normalize
+  field_simp
+  ring
+
+end rbf
+
+section rbf_ordered
+variable {K : Type} [Field K] [LinearOrder K] [IsStrictOrderedRing K]
+
+/-- The whole table of `_find_dR` with the corrected `dims <= 2`, `rbf_family == 1` entry:
+`frnt * polyval(dRp_poly, T)` is the derivative of `Cf * polyval(cb_poly, T)` for every
+family `-2 … 4` and every dimension class. -/
+theorem C28_rbf_dbasis (cls : Nat) (fam : Int) (e : RbfEntry)
+    (h : rbfTable true cls fam = some e) (t u : K) :
+    rbfPhi e (⟨t, u⟩ : Dual K) = ⟨rbfPhi e t, rbfDPhi e t * u⟩ := by
+  apply Dual.ext'
+  · exact rbfPhi_re e ⟨t, u⟩
+  · exact rbf_dbasis_entries cls fam e true h (Or.inl rfl) t u
+
+/-- The table as shipped: all entries except `dims <= 2`, `rbf_family == 1`. -/
+theorem C28_rbf_dbasis_partial (cls : Nat) (fam : Int) (e : RbfEntry)
+    (h : rbfTable false cls fam = some e) (hne : ¬ (fam = 1 ∧ cls = 0)) (t u : K) :
+    rbfPhi e (⟨t, u⟩ : Dual K) = ⟨rbfPhi e t, rbfDPhi e t * u⟩ := by
+  apply Dual.ext'
+  · exact rbfPhi_re e ⟨t, u⟩
+  · exact rbf_dbasis_entries cls fam e false h (Or.inr hne) t u
+
+end rbf_ordered
+
+/-- The shipped `dims <= 2`, `rbf_family == 1` entry is *not* the derivative (it is its negative):
+at `T = 1/2` the derivative of `Cf * Cb` is `-1/8`, the table gives `+1/8`. -/
+theorem C28_rbf_dbasis_shipped_counterexample :
+    ∃ e, rbfTable false 0 1 = some e ∧
+      (rbfPhi e (⟨1 / 2, 1⟩ : Dual Rat)).du = -1 / 8 ∧ rbfDPhi e (1 / 2 : Rat) * 1 = 1 / 8 := by
+  refine ⟨_, rfl, ?_, ?_⟩ <;> decide +kernel
+
+section rbf_grad
+variable {K : Type} [Field K] [DecidableEq K]
+
+/-- `_find_dR` is the derivative of `__call__` (neighbour-sum form, fixed neighbours, away from
+the training inputs), for any basis whose `dRp` is the derivative of `Cf * Cb` (`hphi`, provided
+by `C28_rbf_dbasis`).  `nb` lists the first `N-1` neighbours as (distance as a dual number,
+offset `xn - tp_j`, weight), `DN`/`xpm` belong to the farthest neighbour; the dual parts of the
+distances are those of the Euclidean distance in the direction `e` (`C28_dist_dual`). -/
+theorem C28_linearize_is_derivative_rbf (tvm tvr : K) (tpr : List K) (tiny : K) (e : RbfEntry)
+    (hphi : ∀ t u : K, rbfPhi e (⟨t, u⟩ : Dual K) = ⟨rbfPhi e t, rbfDPhi e t * u⟩)
+    (nb : List (Dual K × List K × K)) (DN : Dual K) (xpm ev : List K)
+    (hrows : ∀ q ∈ nb, q.2.1.length = tpr.length) (hxpm : xpm.length = tpr.length)
+    (hre : ∀ q ∈ nb, q.1.re ≠ 0) (hN : DN.re ≠ 0)
+    (hseed : ∀ q ∈ nb, q.1.du * q.1.re = dot q.2.1 (List.zipWith (· / ·) ev tpr))
+    (hseedN : DN.du * DN.re = dot xpm (List.zipWith (· / ·) ev tpr)) :
+    denorm (Dual.const tvm) (Dual.const tvr)
+        (rbfPredictN e (nb.map (·.1)) DN ((nb.map (·.2.2)).map Dual.const))
+      = ⟨denorm tvm tvr (rbfPredictN e (nb.map (·.1.re)) DN.re (nb.map (·.2.2))),
+         dot (rbfLinearize tvr tpr tiny e (nb.map (·.1.re)) DN.re (nb.map (·.2.1)) xpm
+           (nb.map (·.2.2))) ev⟩ := by
+  have hphi' : ∀ T : Dual K, rbfPhi e T = ⟨rbfPhi e T.re, rbfDPhi e T.re * T.du⟩ :=
+    fun T => hphi T.re T.du
+  -- the predictor on dual numbers
+  have hP : rbfPredictN e (nb.map (·.1)) DN ((nb.map (·.2.2)).map Dual.const)
+      = sumL (nb.map (fun q => rbfPhi e (q.1 / DN) * Dual.const q.2.2)) := by
+    unfold rbfPredictN rbfRow
+    rw [List.map_map, List.map_map, dotD_map_map]
+    rfl
+  have hPr : rbfPredictN e (nb.map (·.1.re)) DN.re (nb.map (·.2.2))
+      = sumL (nb.map (fun q => rbfPhi e (q.1.re / DN.re) * q.2.2)) := by
+    unfold rbfPredictN rbfRow
+    rw [List.map_map, dot_map_map]
+    rfl
+  unfold rbfLinearize
+  rw [dot_zipWith_scale,
+    dot_rbfGradN tpr.length tiny e nb (·.1.re) (·.2.1) (·.2.2) DN.re xpm _ hrows hxpm hre hN,
+    hP, hPr]
+  apply Dual.ext'
+  · simp only [denorm, Dual.add_re, Dual.mul_re, Dual.const_re]
+    rw [sumD_re]
+    congr 2
+    exact sumL_map_congr _ _ _ (fun q _ => by rw [Dual.mul_re, hphi']; rfl)
+  · simp only [denorm, Dual.add_du, Dual.mul_du, Dual.const_re, Dual.const_du]
+    rw [sumD_du]
+    have : sumL (nb.map (fun q => (rbfPhi e (q.1 / DN) * Dual.const q.2.2).du))
+        = sumL (nb.map (fun x => rbfDPhi e (x.1.re / DN.re) * x.2.2
+            * ((dot x.2.1 (List.zipWith (· / ·) ev tpr)
+                - (x.1.re / DN.re) * (x.1.re / DN.re) * dot xpm (List.zipWith (· / ·) ev tpr))
+              / (DN.re * DN.re * (x.1.re / DN.re))))) := by
+      apply sumL_map_congr
+      intro q hq
+      rw [Dual.mul_du, hphi' (q.1 / DN)]
+      simp only [Dual.div_re, Dual.div_du, Dual.const_re, Dual.const_du]
+      rw [← hseed q hq, ← hseedN]
+      have h1 := hre q hq
+      field_simp
+      ring
+    rw [this]
+    ring
+
+end rbf_grad
+
+
+-- non-vacuity: family 2 in one dimension exists in the table and a row is reproduced
+example : (rbfTable true 0 2).isSome = true ∧ (rbfTable false 3 4).isSome = true := by decide
+example : rbfPredict (0 : Rat) 1 3 ⟨1, 1, [1], none, 1, [-1]⟩ [0, 1] [0, 1 / 2] 1 [4, 2, 7]
+    = 4 * 1 + 2 * (1 / 2) := by decide +kernel
+
+/-! ## Kriging -/
+
+section kriging
+variable {K : Type} [Field K]
+
+/-- The interpolation error at a training input is exactly the residual of the linear solve:
+`predict(x_i) - y_i = Y_std · ((R α)_i - Y_i)` where `Ri` is row `i` of the correlation matrix
+(unit diagonal: what `predict` evaluates) and `Y_i = (y_i - Y_mean) / Y_std`. -/
+theorem C28_kriging_train_residual (ymean ystd : K) (Ri α : List K) (yi : K) (hstd : ystd ≠ 0) :
+    krigPredict ymean ystd Ri α - yi = ystd * (dot Ri α - normalize ymean ystd yi) := by
+  unfold krigPredict normalize
+  field_simp
+  ring
+
+/-- Zero nugget: if `α` solves `R α = Y` (certificate for row `i`), the predictor returns the
+training output at training input `i`. -/
+theorem C28_interp_at_train_kriging (ymean ystd : K) (Ri α : List K) (yi : K) (hstd : ystd ≠ 0)
+    (hsolve : dot Ri α = normalize ymean ystd yi) :
+    krigPredict ymean ystd Ri α = yi := by
+  have := C28_kriging_train_residual ymean ystd Ri α yi hstd
+  rw [hsolve, sub_self, mul_zero] at this
+  exact sub_eq_zero.mp this
+
+/-- With a nugget `ν` on the diagonal of the training matrix (`(R + νI) α = Y`) the training
+output is missed by exactly `-Y_std · ν · α_i`. -/
+theorem C28_kriging_nugget_error (ymean ystd ν αi : K) (Ri α : List K) (yi : K) (hstd : ystd ≠ 0)
+    (hsolve : dot Ri α + ν * αi = normalize ymean ystd yi) :
+    krigPredict ymean ystd Ri α - yi = -(ystd * ν * αi) := by
+  rw [C28_kriging_train_residual ymean ystd Ri α yi hstd, ← hsolve]
+  ring
+
+/-- unit vector `e_i` of length `m` -/
+def unitVec (m i : Nat) : List K := (List.replicate m 0).set i 1
+
+theorem dot_unitVec (m i : Nat) (row : List K) (hi : i < m) (hrow : row.length = m) :
+    dot row (unitVec m i) = row.getD i 0 := by
+  unfold unitVec
+  rw [dot_comm, dot_set _ _ _ _ (by simp [hrow]) (by simpa using hi), dot_replicate_zero,
+    getD_replicate_zero]
+  ring
+
+/-- The textbook form `μ + wᵀ(y - μ)` with `R w = r`: at training input `i` the right-hand side
+`r` is column `i` of `R` (zero nugget), which is `R e_i`; if `R` is injective (invertible) the
+solve returns `w = e_i`, and the predictor `wᵀ Y` picks the training value `Y_i`. -/
+theorem C28_kriging_unit_weights (m i : Nat) (R : List (List K)) (w Y : List K) (hi : i < m)
+    (hrows : ∀ row ∈ R, row.length = m) (hw : w.length = m) (hY : Y.length = m)
+    (hinj : ∀ a b : List K, a.length = m → b.length = m → matVec R a = matVec R b → a = b)
+    (hsolve : matVec R w = R.map (fun row => row.getD i 0)) :
+    w = unitVec m i ∧ dot w Y = Y.getD i 0 := by
+  have hcol : matVec R (unitVec m i) = R.map (fun row => row.getD i 0) := by
+    unfold matVec
+    exact List.map_congr_left (fun row hr => dot_unitVec m i row hi (hrows row hr))
+  have e : w = unitVec m i :=
+    hinj w (unitVec m i) hw (by simp [unitVec]) (by rw [hsolve, hcol])
+  refine ⟨e, ?_⟩
+  rw [e, dot_comm, dot_unitVec m i Y hi hY]
+
+end kriging
+
+section kriging_lin
+variable {K : Type} [Field K]
+
+/-- `KrigingSurrogate.linearize` is the derivative of `predict`.  `E` is the exponential as an
+abstract primitive whose derivative is itself (the pair `(E, E)` lifts it to dual numbers);
+`nb` lists the training points as (normalised input `X_k`, weight `α_k`); `Xd` is the raw query
+`x + ε e`. -/
+theorem C28_linearize_is_derivative_kriging (E : K → K) (xmean xstd : List K) (ymean ystd : K)
+    (θ : List K) (nb : List (List K × K)) (Xd : List (Dual K))
+    (hstd : ∀ c ∈ xstd, c ≠ 0) (hm : xmean.length = Xd.length) (hs : xstd.length = Xd.length)
+    (hθ : θ.length = Xd.length) (hX : ∀ q ∈ nb, q.1.length = Xd.length) :
+    krigModel (Dual.lift E E) (xmean.map Dual.const) (xstd.map Dual.const) (Dual.const ymean)
+        (Dual.const ystd) (θ.map Dual.const) (nb.map (fun q => q.1.map Dual.const))
+        ((nb.map (·.2)).map Dual.const) Xd
+      = ⟨krigModel E xmean xstd ymean ystd θ (nb.map (·.1)) (nb.map (·.2)) (Xd.map Dual.re),
+         dot (krigLinearize ystd xstd θ
+               (nb.map (fun q => krigCorr E θ (normV (Xd.map Dual.re) xmean xstd) q.1))
+               (nb.map (fun q => subV (normV (Xd.map Dual.re) xmean xstd) q.1))
+               (nb.map (·.2)))
+             (Xd.map Dual.du)⟩ := by
+  obtain ⟨hnre, hndu⟩ := normV_dual Xd xmean xstd hstd hm hs
+  set Xn := normV Xd (xmean.map Dual.const) (xstd.map Dual.const) with hXn
+  set xn := normV (Xd.map Dual.re) xmean xstd with hxn
+  have hxnlen : xn.length = Xd.length := by
+    rw [hxn]; simp [normV, length_subV, hm, hs]
+  -- one correlation on dual numbers
+  have hcorr : ∀ Xk : List K, krigCorr (Dual.lift E E) (θ.map Dual.const) Xn (Xk.map Dual.const)
+      = ⟨krigCorr E θ xn Xk,
+         E (-(dot θ ((subV xn Xk).map (fun d => d * d))))
+           * -(two * dot (mulV θ (subV xn Xk)) (List.zipWith (· / ·) (Xd.map Dual.du) xstd))⟩ := by
+    intro Xk
+    unfold krigCorr
+    rw [krig_expo_dual θ Xn Xk, hnre, hndu]
+    rfl
+  -- the model on dual numbers as a sum over the training points
+  have hM : krigModel (Dual.lift E E) (xmean.map Dual.const) (xstd.map Dual.const)
+        (Dual.const ymean) (Dual.const ystd) (θ.map Dual.const)
+        (nb.map (fun q => q.1.map Dual.const)) ((nb.map (·.2)).map Dual.const) Xd
+      = Dual.const ymean + Dual.const ystd
+          * sumL (nb.map (fun q => krigCorr (Dual.lift E E) (θ.map Dual.const) Xn (q.1.map Dual.const)
+              * Dual.const q.2)) := by
+    unfold krigModel krigPredict
+    rw [List.map_map, List.map_map, dotD_map_map]
+    rfl
+  have hMr : krigModel E xmean xstd ymean ystd θ (nb.map (·.1)) (nb.map (·.2)) (Xd.map Dual.re)
+      = ymean + ystd * sumL (nb.map (fun q => krigCorr E θ xn q.1 * q.2)) := by
+    unfold krigModel krigPredict
+    rw [List.map_map, dot_map_map]
+    rfl
+  -- the code's jacobian dotted with the direction
+  have hJ : dot (krigLinearize ystd xstd θ (nb.map (fun q => krigCorr E θ xn q.1))
+        (nb.map (fun q => subV xn q.1)) (nb.map (·.2))) (Xd.map Dual.du)
+      = ystd * sumL (nb.map (fun q => krigCorr E θ xn q.1 * (-two) * q.2
+          * dot (mulV θ (subV xn q.1)) (List.zipWith (· / ·) (Xd.map Dual.du) xstd))) := by
+    unfold krigLinearize
+    rw [dot_zipWith_krig, List.map_map, zipWith_map_map,
+      dot_tMatVec_map xstd.length _ _ nb _ (by
+        intro q hq
+        simp only [Function.comp, length_mulV, length_subV, hθ, hxnlen, hX q hq, hs, Nat.min_self])]
+    rfl
+  rw [hM, hMr, hJ]
+  apply Dual.ext'
+  · simp only [Dual.add_re, Dual.mul_re, Dual.const_re]
+    rw [sumD_re]
+    congr 2
+    exact sumL_map_congr _ _ _ (fun q _ => by rw [Dual.mul_re, hcorr]; rfl)
+  · simp only [Dual.add_du, Dual.mul_du, Dual.const_re, Dual.const_du]
+    rw [sumD_du]
+    have : sumL (nb.map (fun q => (krigCorr (Dual.lift E E) (θ.map Dual.const) Xn
+          (q.1.map Dual.const) * Dual.const q.2).du))
+        = sumL (nb.map (fun q => krigCorr E θ xn q.1 * (-two) * q.2
+          * dot (mulV θ (subV xn q.1)) (List.zipWith (· / ·) (Xd.map Dual.du) xstd))) := by
+      apply sumL_map_congr
+      intro q _
+      rw [Dual.mul_du, hcorr]
+      simp only [Dual.const_re, Dual.const_du, krigCorr]
+      ring
+    rw [this]
+    ring
+
+end kriging_lin
+
+-- non-vacuity: two training points, correlations (1, 1/2), R = [[1,1/2],[1/2,1]], Y = (1,-1):
+-- α = (2,-2) solves R α = Y
+example : dot [(1 : Rat), 1 / 2] [2, -2] = normalize 5 3 8 ∧ krigPredict (5 : Rat) 3 [1, 1 / 2] [2, -2] = 8 := by
+  decide +kernel
+
+/-! ## MetaModelUnStructuredComp, `vec_size > 1` -/
+
+/-- The declared sparse pattern and the flat value array put `derivs_j[a][idx + b]` — the
+surrogate's Jacobian at point `j`, column slice of the input variable — at row `j·n_of + a`,
+column `j·n_wrt + b`: the diagonal block of point `j`. -/
+theorem C28_comp_vec_entry {K : Type} [OfNat K 0] (derivs : Nat → List (List K))
+    (nOf nWrt idx j a b : Nat) (ha : a < nOf) (hb : b < nWrt) :
+    let t := j * (nOf * nWrt) + (a * nWrt + b)
+    vecRow nOf nWrt t = j * nOf + a ∧ vecCol nOf nWrt t = j * nWrt + b ∧
+      vecVal derivs nOf nWrt idx t = ((derivs j).getD a []).getD (idx + b) 0 := by
+  intro t
+  have hL : a * nWrt + b < nOf * nWrt := by
+    calc a * nWrt + b < a * nWrt + nWrt := by omega
+      _ = (a + 1) * nWrt := by ring
+      _ ≤ nOf * nWrt := Nat.mul_le_mul_right _ ha
+  have hpos : 0 < nOf * nWrt := by omega
+  have h1 : t / (nOf * nWrt) = j := by
+    show (j * (nOf * nWrt) + (a * nWrt + b)) / (nOf * nWrt) = j
+    rw [Nat.add_comm, Nat.add_mul_div_right _ _ hpos, Nat.div_eq_of_lt hL, Nat.zero_add]
+  have h2 : t % (nOf * nWrt) = a * nWrt + b := by
+    show (j * (nOf * nWrt) + (a * nWrt + b)) % (nOf * nWrt) = _
+    rw [Nat.add_comm, Nat.add_mul_mod_self_right, Nat.mod_eq_of_lt hL]
+  have hw : 0 < nWrt := by omega
+  have h3 : (a * nWrt + b) / nWrt = a := by
+    rw [Nat.add_comm, Nat.add_mul_div_right _ _ hw, Nat.div_eq_of_lt hb, Nat.zero_add]
+  have h4 : (a * nWrt + b) % nWrt = b := by
+    rw [Nat.add_comm, Nat.add_mul_mod_self_right, Nat.mod_eq_of_lt hb]
+  refine ⟨?_, ?_, ?_⟩
+  · unfold vecRow; rw [h1, h2, h3]; ring
+  · unfold vecCol; rw [h1, h2, h4]; ring
+  · unfold vecVal; simp only [h1, h2, h3, h4]
+
+/-- No two entries of the pattern share a position: an entry index `t` is determined by its
+`(row, col)` (so nothing is overwritten and every stored value is visible). -/
+theorem C28_comp_vec_entry_unique (nOf nWrt t t' : Nat) (hO : 0 < nOf) (hW : 0 < nWrt)
+    (hr : vecRow nOf nWrt t = vecRow nOf nWrt t') (hc : vecCol nOf nWrt t = vecCol nOf nWrt t') :
+    t = t' := by
+  unfold vecRow at hr
+  unfold vecCol at hc
+  have hL : 0 < nOf * nWrt := Nat.mul_pos hO hW
+  -- decompose both
+  have d1 := Nat.div_add_mod t (nOf * nWrt)
+  have d2 := Nat.div_add_mod t' (nOf * nWrt)
+  have m1 := Nat.mod_lt t hL
+  have m2 := Nat.mod_lt t' hL
+  have e1 := Nat.div_add_mod (t % (nOf * nWrt)) nWrt
+  have e2 := Nat.div_add_mod (t' % (nOf * nWrt)) nWrt
+  have b1 := Nat.mod_lt (t % (nOf * nWrt)) hW
+  have b2 := Nat.mod_lt (t' % (nOf * nWrt)) hW
+  have a1 : t % (nOf * nWrt) / nWrt < nOf := by
+    rw [Nat.div_lt_iff_lt_mul hW]; exact m1
+  have a2 : t' % (nOf * nWrt) / nWrt < nOf := by
+    rw [Nat.div_lt_iff_lt_mul hW]; exact m2
+  -- from the columns: same point and same b; from the rows: same a
+  have hj : t / (nOf * nWrt) = t' / (nOf * nWrt) := by
+    have := congrArg (· / nWrt) hc
+    simp only [Nat.add_mul_div_right _ _ hW, Nat.div_eq_of_lt b1, Nat.div_eq_of_lt b2,
+      Nat.zero_add] at this
+    exact this
+  rw [hj] at hr hc
+  have hb : t % (nOf * nWrt) % nWrt = t' % (nOf * nWrt) % nWrt := Nat.add_right_cancel hc
+  have ha : t % (nOf * nWrt) / nWrt = t' % (nOf * nWrt) / nWrt := Nat.add_right_cancel hr
+  have hk : t % (nOf * nWrt) = t' % (nOf * nWrt) := by
+    rw [← e1, ← e2, ha, hb]
+  rw [← d1, ← d2, hj, hk]
+
+-- non-vacuity: 2 points, 2 outputs, 3 columns
+example : vecRow 2 3 (1 * (2 * 3) + (1 * 3 + 2)) = 1 * 2 + 1 ∧ vecCol 2 3 (1 * (2 * 3) + (1 * 3 + 2)) = 1 * 3 + 2 := by
+  decide
+
 end OMV.C28
